@@ -240,9 +240,62 @@ def rule_c(ctx):
                   rr.term(bb)["sp"], "a path to return neither moves nor drops the WakeFd")
 
 
+def rule_d(ctx):
+    """never written to after close: the descriptor handed to the wake primitive is obtained, at wake time, from an owner the action itself keeps
+    alive (as_raw_fd() on a captured owning object, or the fd field of the captured WakeFd) — not a bare number captured at registration"""
+    F = ctx.F
+    rid = "C13.d"
+    ctx.rule(rid, "every descriptor passed to the wake primitive in the dispatch cone comes from an owner captured by the action (AsRawFd::as_raw_fd "
+                  "of a captured object / the WakeFd's fd field); a raw integer captured at registration time is refused", floor=2)
+    w = wake_fn(F)
+    cone = dispatch_cone(F)
+    n = 0
+    for (cid, k, bb) in F.callers().get(w.id, []):
+        c = F.inst[cid]
+        if c.body is None or k != "call" or cid not in cone.parent:
+            continue
+        n += 1
+        ctx.fn(c)
+        ex = [deep_strip(e) for e in flow(c).term_arg(bb, 0)]
+        okk = True; how = []
+        for e in ex:
+            x = e
+            if x[0] == "call" and ((x[3] or "").endswith("AsRawFd::as_raw_fd") or _returns_live_fd(F, c, x)):
+                how.append("as_raw_fd() at wake time"); continue
+            if x[0] == "field" and x[2] == "fd" and WAKEFD in (x[4] or ""):
+                how.append("WakeFd.fd"); continue
+            if x[0] == "param":
+                how.append("parameter (checked at the caller)"); continue
+            okk = False; how.append("captured/raw value: " + show(x))
+        ctx.check(okk, rid, "fd-from-owner@%s" % keyname(c.name), "%s passes a descriptor obtained from a live owner" % c.name.split("::")[-1][:60], c.term(bb)["sp"],
+                  {"fd": how, "why": "the owner may be closed (and the number reused) while the action is still registered"})
+    if n < 2:
+        raise AnchorLost("callers of the wake primitive in the dispatch cone: %d" % n)
+
+
+def _returns_live_fd(F, c, x):
+    """call of a workspace helper on `self`/a captured owner that itself returns as_raw_fd() of it"""
+    if x[2] is None:
+        return False
+    f = F.inst[x[2]]
+    if f.kind == "virtual":
+        tg = [F.inst[t] for t, _ in f.impls or []]
+    else:
+        tg = [f]
+    okk = bool(tg)
+    for g in tg:
+        if g.body is None:
+            return False
+        rets = [deep_strip(r) for rb in g.exits() for r in flow(g).place({"l": 0, "p": []}, (rb, len(g.stmts(rb))))]
+        if not rets or not all(r[0] == "call" and (r[3] or "").endswith("AsRawFd::as_raw_fd") for r in rets):
+            okk = False
+    return okk
+
+
 def run(ctx):
     from .. import fixtures
     ctx.guarded("C13.FX", lambda c: fixtures.run(c, ['escapes']))
+    ctx.guarded("C13.d", rule_d)
     ctx.guarded("C13.a", rule_a)
     ctx.guarded("C13.b", rule_b)
     ctx.guarded("C13.c", rule_c)
